@@ -30,6 +30,7 @@ import (
 	"os"
 	"path/filepath"
 	"sort"
+	"strings"
 
 	hdf5 "github.com/scigolib/hdf5"
 	"github.com/scigolib/hdf5/internal/core"
@@ -266,7 +267,12 @@ func c03Link(c *c03Case) (interface{}, error) {
 			}
 		}
 		if r.OK && op.Op == "mkgroup" {
-			tracked = append(tracked, unhex(op.Path))
+			// fw.groups is keyed by the path CreateGroup registered (raw, or with one trailing slash trimmed)
+			key := unhex(op.Path)
+			if _, _, ok := fw.VerifGroupStructures(key); !ok {
+				key = strings.TrimSuffix(key, "/")
+			}
+			tracked = append(tracked, key)
 		}
 		results = append(results, r)
 	}
